@@ -344,6 +344,7 @@ package raft
 //@ func Raft.nextConfiguration
 //@   flags lockheld
 //@   requires [next-nonnil] next != nil
+//@   requires [alive] !(r.id in next.Members) ==> r.state != Shutdown
 //@   requires [pre-nonnil] r.configuration != nil && r.followers != nil && r.operationManager != nil && r.operationManager.leaderLease != nil && r.logger != nil && r.operationManager.pendingReplicated != nil && r.operationManager.pendingReadOnly != nil
 //@   requires [pre-I11c] forall o *Operation :: o in r.operationManager.pendingReadOnly ==> o != nil
 //@   requires [pre-L] 0 <= Llast
@@ -815,6 +816,14 @@ package raft
 
 // The two flags that pause application during a snapshot / mark an Apply in flight are each written
 // by one goroutine only (and read by the others under the lock).
+// Stop() publishes the Shutdown state under the lock, waits for the background loops, and then closes
+// or discards the snapshot files WITHOUT the lock. That is race-free only because every other
+// goroutine that gets the lock afterwards looks at the state first and leaves these fields alone:
+// an access to one of them is an obligation `<fn>.not-after-stop` (r.state != Shutdown is known).
+//@ stopowned Raft.snapshot follower.snapshot
+// Exempt: the lifecycle functions themselves, and the background loops that Stop() waits for
+// (sync.WaitGroup) before it touches the fields.
+//@ stopexempt Raft.Stop Raft.start Raft.Restart Raft.Start NewRaft Raft.snapshotLoop Raft.applyLoop Raft.commitLoop Raft.readOnlyLoop Raft.electionLoop Raft.heartbeatLoop Raft.electionTicker
 //@ owner Raft.snapshotting = Raft.snapshotLoop
 //@ owner Raft.applying = Raft.applyLoop
 //@ func Raft.snapshotLoop
